@@ -5,7 +5,7 @@
    Re-checked on every run; a changed comparison, offset, appended element, slot or insert position in the
    source changes Gen/C09.v and makes one of these fail. *)
 From Coq Require Import ZArith List Bool Lia.
-From BNP Require Import Base.Prims Model.C09 Gen.C09.
+From BNP Require Import Base.Prims Model.C09 Model.C09_pileup Gen.C09.
 Import ListNotations.
 Open Scope Z_scope.
 
@@ -18,7 +18,8 @@ Ltac bridge := intros; cbv beta delta [
   gen_iv_array_trailing_default gen_iv_array_shape gen_iv_drop_first gen_iv_drop_count gen_iv_keep gen_iv_return_shape
   gen_ta_diff gen_ta_shape gen_td_lo gen_td_hi gen_td_shape gen_ec_lo gen_ec_hi gen_ec_shape gen_gd_lo gen_gd_hi gen_gd_stop
   gen_gd_shape gen_af_shape gen_go_offsets np_insert_front gen_go_start_bad gen_go_start_negative gen_go_stop_ok gen_go_start gen_go_stop
-  gen_go_shape
+  gen_go_shape gen_pu_is_empty gen_pu_empty_events gen_pu_empty_values gen_pu_shape gen_gpu_shape
+  m_pu_is_empty m_pu_empty_events m_pu_empty_values m_pu_shape m_gpu_shape
   m_bg_empty_events m_bg_empty_values m_bg_is_gap m_bg_gap_pos m_bg_gap_value m_bg_gap_shape m_bg_fits m_bg_ends_at_size
   m_bg_tail_at m_bg_tail_before m_bg_tail_values_before m_bg_tail_shape m_bg_needs_prefix m_bg_prefix_pos m_bg_prefix_event
   m_bg_prefix_value m_bg_prefix_shape m_iv_assert_nonempty m_iv_assert_ordered m_iv_has_prefix m_iv_prefix m_iv_has_postfix
@@ -91,6 +92,13 @@ Lemma b_go_stop_ok : forall e n, gen_go_stop_ok e n = m_go_stop_ok e n. Proof. b
 Lemma b_go_shift : forall x off, gen_go_start x off = m_go_shift x off /\ gen_go_stop x off = m_go_shift x off.
 Proof. split; bridge. Qed.
 Lemma b_go_shape : gen_go_shape = m_go_shape. Proof. bridge. Qed.
+(* get_pileup (intervals.py) and GenomicIntervalsFull.get_pileup (genomic_intervals.py): the empty-set test and result, and the
+   hand-over skeleton to npstructures (RunLength2dArray.from_intervals(start, stop, size).sum(axis=0)) — Model/C09_pileup.v *)
+Lemma b_pu_is_empty : forall n, gen_pu_is_empty n = m_pu_is_empty n. Proof. bridge. Qed.
+Lemma b_pu_empty_events : forall size, gen_pu_empty_events size = m_pu_empty_events size. Proof. bridge. Qed.
+Lemma b_pu_empty_values : gen_pu_empty_values = m_pu_empty_values. Proof. bridge. Qed.
+Lemma b_pu_shape : gen_pu_shape = m_pu_shape. Proof. bridge. Qed.
+Lemma b_gpu_shape : gen_gpu_shape = m_gpu_shape. Proof. bridge. Qed.
 
 (* ---------------- part 2: the named formula is what the model computes where it is spelled differently ---------------- *)
 (* prefix / postfix tests on lists: len(starts) == 0 or starts[0] != 0  <->  match on the list *)
